@@ -23,7 +23,13 @@ class PlantedError(GlomError):
         super().__init__(n)
 
     def get_message(self):
+        if self.n and self.n == MULTILINE_FOR[0]:
+            # a parser-style message: several lines, a blank one and a caret-only pointer line
+            return 'planted %d\n  in detail:\n\n      ^' % self.n
         return 'planted %d' % self.n
+
+
+MULTILINE_FOR = [0]     # leaf execution number whose PlantedError carries a multi-line message
 
 
 class Tok:
@@ -395,7 +401,7 @@ class BigTok(Tok):
         return 7
 
 
-def execute(tree, plan, caller_scope=None, hook=True, prebuilt=None, big_root=False):
+def execute(tree, plan, caller_scope=None, hook=True, prebuilt=None, big_root=False, multiline_for=0):
     """run the real library on the realisation of tree; returns dict(out, log, events, error).
     prebuilt: (spec, run, index) of an earlier execute() -- evaluates the SAME spec objects again"""
     if prebuilt is not None:
@@ -409,6 +415,7 @@ def execute(tree, plan, caller_scope=None, hook=True, prebuilt=None, big_root=Fa
     if hook:
         glom.core._verif_install(rec)
     Tok._cache.clear()
+    MULTILINE_FOR[0] = multiline_for
     kw = {}
     if caller_scope is not None:
         kw['scope'] = caller_scope
@@ -423,6 +430,7 @@ def execute(tree, plan, caller_scope=None, hook=True, prebuilt=None, big_root=Fa
         except GlomError as e:
             out = {'out': 'err', 'error': e}
     finally:
+        MULTILINE_FOR[0] = 0
         if hook:
             glom.core._verif_install(None)
     out.update(log=run.log, events=normalise(rec.events), spec=spec, index=index, prebuilt=(spec, run, index))
